@@ -1,19 +1,28 @@
 """Exhaustive small-scope driver for the aggregate contracts (C03 / C04).
 
-Family A ("every cube x covering design"): every cube in scope - all dense rows over the value set,
-every common per dimension including one that is absent from the data, explicit and inferred
-shape - is run with a pairwise-covering design over
+Family A ("every cube x covering design"): every cube in scope - 0-3 dimensions of 1-D indexes /
+arrays, all dense rows over the value set, every common per dimension including one that is absent
+from the data, explicit and inferred shape - is run with a pairwise-covering design over
 
-    fact form   x  weight form  x  missing policy  x  dtype of the array cube's dims
+    fact form  x  weight form  x  missing policy  x  dtype of the array cube's dims  x  format set
 
-(every pair of factor levels occurs with every cube), with ALL FOUR report formats
-(NaN, (0, False), (-7.5, False), plain 0) and BOTH cube types for every design row.  The fact and
-weight *contents* of a design row are drawn, deterministically, from the exhaustive list of grid
-tuples (a full-cycle walk through grid^(N*K), so no content is privileged).
+(every pair of factor levels occurs with every cube; the design is built by a deterministic greedy
+construction and its coverage is asserted), all four aggregates, BOTH cube types per design row.
+A format set is the NaN format (the reference of the relational clauses) plus one other format in
+the quick tier - (0, False), (-7.5, False) or plain 0 - and all four formats in the thorough tier.
+The fact and weight *contents* of a design row are drawn, deterministically, from the exhaustive
+list of grid tuples (a full-cycle walk through grid^(N*K), so no content is privileged):
 
-Family B ("exhaustive data"): for the 1-dimension cubes over two categories with N <= 3 rows the
-fact contents (value grid {0, 1, 2.5, -3, NaN}) and the weight contents ({None, 2.0} and every
-array over {0, 2, NaN}) are enumerated exhaustively, both policies, NaN format, both cube types.
+    fact grid {0, 1, 2.5, -3, NaN}; forms: NaN-marked / (values, validity) with garbage (NaN, 99, -1)
+    under False / int64 with validity / plain int64; shapes (N,), (N,2) (thorough: also (N,3))
+    weights: None, 0.0, 2.0, arrays over {0, .5, 2} and NaN-marked over {0, 2, .5, NaN},
+    (values, validity) with garbage (NaN, -1, 7) under False
+
+Family B ("exhaustive data"): for the 1-dimension cubes over two categories (N <= 3 rows for (N,)
+facts, N <= 2 for (N,2) facts; commons 0 and the absent 2) the contents are enumerated exhaustively:
+every fact over the full grid with weights None and 2.0, and every weight array over {0, 2, NaN}
+with every fact over {0, 2.5, NaN} (thorough: full grid, commons 0/1/2); both policies, NaN format,
+both cube types.
 
 The contracts attached to the real methods (contracts_agg) judge every call, including the nested
 calls the library makes; the relational clauses (formats agree; ccube ~ xcube) are stated here.
@@ -53,7 +62,7 @@ def scopes(tier):
     A3: list of (values per dim, max rows, common patterns 'all' | 'some')."""
     if tier == "thorough":
         return dict(fact_forms=FACT_FORMS_THOROUGH, xdtypes=XDTYPES_THOROUGH, format_sets=FORMAT_SETS_THOROUGH,
-                    N0=5, A1=(3, 5), A2_inferred="all",
+                    N0=5, A1=(3, 5), A2_inferred="edge",
                     A2=[((2, 2), 3, "all"), ((3, 3), 2, "edge"), ((2, 3), 2, "all"), ((3, 2), 2, "all")],
                     A3=[((2, 2, 2), 2, "all"), ((2, 3, 2), 2, "some")],
                     BN=3, BN2=2, Bcommons=(0, 1, 2), Bgrid_under_array_weights=GRID)
@@ -267,11 +276,31 @@ class Stats:
 FAILED = object()
 
 
+_noraise_seen = [0]
+
+
 def _try(f):
+    """Run a call that is under contract.  The wrapper records a raise as a failed `no-raise` clause; an
+    exception that left no such record came from the checker's own code (a snapshot / description) and
+    is reported as a checker error, never swallowed."""
+    try:
+        return f()
+    except Exception as e:
+        now = sum(v for k, v in MON.fail_counts.items() if k.endswith("/no-raise"))
+        if now == _noraise_seen[0]:
+            MON.check("checker.drive_agg/exception-outside-any-contract-clause", "%s: %s" % (type(e).__name__, str(e)[:300]), None,
+                      {"case": CA.CASE_DESC}, None)
+        _noraise_seen[0] = now
+        return FAILED
+
+
+def _try_plain(f):
+    """Run a call that is not itself under contract (the cube constructors); the caller states the clause."""
     try:
         return f()
     except Exception:
-        return FAILED  # the contract wrapper has already recorded the raise (no-raise clause)
+        _noraise_seen[0] = sum(v for k, v in MON.fail_counts.items() if k.endswith("/no-raise"))
+        return FAILED
 
 
 def obs(res, kind):
@@ -308,12 +337,12 @@ class Cubes:
         if self.cc is None:
             CA.CASE_CLS, CA.CASE_DESC = dict(self.cls, cube="ccube"), self.desc
             idx = [mk(d, c) for d, c in zip(self.dense, self.commons)]
-            cube = _try(lambda: self.M["ccube"](idx, self.shape) if self.shape is not None else self.M["ccube"](idx))
-            MON.check("ccubes.ccube.__init__/no-raise", cube is not FAILED, "constructor raised", self.desc, self.cls)
+            cube = _try_plain(lambda: self.M["ccube"](idx, self.shape) if self.shape is not None else self.M["ccube"](idx))
+            MON.check("ccubes.ccube.__init__/no-raise", cube is not FAILED, "constructor raised", {"case": self.desc}, self.cls)
             if cube is not FAILED and self.shape is None:
                 got = tuple(int(e) for e in cube.interacting_shape)
                 MON.check("ccubes.ccube.__init__/ensures-inferred-extents-cover-values-and-common", got == self.c_ext,
-                          lambda: "inferred %r, expected %r" % (got, self.c_ext), self.desc, self.cls)
+                          lambda: "inferred %r, expected %r" % (got, self.c_ext), {"case": self.desc}, self.cls)
             self.cc = cube
         return self.cc
 
@@ -325,12 +354,12 @@ class Cubes:
             cls = dict(self.cls, cube="xcube", xdtype=dt)
             CA.CASE_CLS, CA.CASE_DESC = cls, dict(self.desc, xdtype=dt)
             arrs = [d.astype(dt) for d in self.dense]
-            cube = _try(lambda: self.M["xcube"](arrs, self.shape) if self.shape is not None else self.M["xcube"](arrs))
-            MON.check("xcubes.xcube.__init__/no-raise", cube is not FAILED, "constructor raised", CA.CASE_DESC, cls)
+            cube = _try_plain(lambda: self.M["xcube"](arrs, self.shape) if self.shape is not None else self.M["xcube"](arrs))
+            MON.check("xcubes.xcube.__init__/no-raise", cube is not FAILED, "constructor raised", {"case": CA.CASE_DESC}, cls)
             if cube is not FAILED and self.shape is None:
                 got = tuple(int(e) for e in cube.interacting_shape)
                 MON.check("xcubes.xcube.__init__/ensures-inferred-extents-are-max-plus-one", got == self.x_ext,
-                          lambda: "inferred %r, expected %r" % (got, self.x_ext), CA.CASE_DESC, cls)
+                          lambda: "inferred %r, expected %r" % (got, self.x_ext), {"case": CA.CASE_DESC}, cls)
             self._x[dt] = None if cube is FAILED else cube
         return self._x[dt]
 
@@ -377,19 +406,20 @@ def run_case(cb, agg, fact, weights, ignore, xdt, st, formats=FORMATS, fact_form
             same = all(np.array_equal(have[f][1], ref_m) for f in tup)
             MON.check(qual + "/formats-same-missing-set", same,
                       lambda: "missing cells: NaN format %r, %s" % (ref_m.astype(int).tolist(), ", ".join(
-                          "%s %r" % (f, have[f][1].astype(int).tolist()) for f in tup)), case, c2)
+                          "%s %r" % (f, have[f][1].astype(int).tolist()) for f in tup)), {"case": case}, c2)
         others = [f for f in have if f != "nan" and not (f == "plain" and shortcut)]
         keep = ~ref_m
         for f in others:
             if have[f][1] is not None:
                 keep = keep & ~have[f][1]
         ident = all(np.array_equal(have[f][0][keep], ref_v[keep]) for f in others)
-        MON.check(qual + "/formats-identical-values-on-nonmissing-cells", ident,
-                  lambda: "values: NaN format %r, %s" % (ref_v.tolist(), ", ".join("%s %r" % (f, have[f][0].tolist()) for f in others)), case, c2)
+        if others:
+            MON.check(qual + "/formats-identical-values-on-nonmissing-cells", ident,
+                  lambda: "values: NaN format %r, %s" % (ref_v.tolist(), ", ".join("%s %r" % (f, have[f][0].tolist()) for f in others)), {"case": case}, c2)
         if "plain" in have and not shortcut:
             pz = bool(np.all(have["plain"][0][ref_m] == 0))
             MON.check(qual + "/formats-plain-zero-where-nan-format-is-missing", pz,
-                      lambda: "plain-0 format %r, NaN format %r" % (have["plain"][0].tolist(), ref_v.tolist()), case, c2)
+                      lambda: "plain-0 format %r, NaN format %r" % (have["plain"][0].tolist(), ref_v.tolist()), {"case": case}, c2)
     # ---- C03: the two cube types agree (stated directly; also a lemma of the two postconditions)
     if cubes["ccube"] not in (None, FAILED) and cubes["xcube"] not in (None, FAILED) and cb.c_ext == cb.x_ext:
         tol = S.tolerance(fact, weights, agg, N)
@@ -400,12 +430,12 @@ def run_case(cb, agg, fact, weights, ignore, xdt, st, formats=FORMATS, fact_form
             c2 = dict(cls, format=fname)
             qual = "cubes.%s" % agg
             if a[0].shape != b[0].shape:
-                MON.check(qual + "/agree-ccube-xcube-missing-cells", "results differ in size: %r vs %r" % (a[0].shape, b[0].shape), None, case, c2)
+                MON.check(qual + "/agree-ccube-xcube-missing-cells", "results differ in size: %r vs %r" % (a[0].shape, b[0].shape), None, {"case": case}, c2)
                 continue
             keep = np.ones(a[0].shape, dtype=bool)
             if a[1] is not None:
                 MON.check(qual + "/agree-ccube-xcube-missing-cells", bool(np.array_equal(a[1], b[1])),
-                          lambda: "missing cells: ccube %r, xcube %r" % (a[1].astype(int).tolist(), b[1].astype(int).tolist()), case, c2)
+                          lambda: "missing cells: ccube %r, xcube %r" % (a[1].astype(int).tolist(), b[1].astype(int).tolist()), {"case": case}, c2)
                 keep = ~a[1] & ~b[1]
             with np.errstate(invalid="ignore"):
                 close = bool(np.all(np.abs(a[0][keep] - b[0][keep]) <= tol))
